@@ -95,8 +95,16 @@ func c06randRun(env sched.Env) *sched.Report {
 			randInt = func() int { return rr }
 			rep.Execs++
 			sched.Progress(nil)
+			before := append([]*host.Host{}, hs...)
 			if h := New(service.LoadBalancePolicy_RANDOM).PickHost(hs); in(h) < 0 {
 				fail("random-picks-outside-the-list", fmt.Sprintf("n=%d draw=%d", n, r))
+			}
+			for i := range hs {
+				if hs[i] != before[i] {
+					fail("balancer-reorders-the-callers-host-list / random", fmt.Sprintf("n=%d draw=%d", n, r))
+					copy(hs, before)
+					break
+				}
 			}
 		}
 		// least connection: every assignment of connection counts in {0,1,2}^n x every pair of draws
@@ -122,7 +130,16 @@ func c06randRun(env sched.Env) *sched.Report {
 					randInt = func() int { v := seq[idx%2]; idx++; return v + 3*n*idx }
 					rep.Execs++
 					sched.Progress(nil)
+					before := append([]*host.Host{}, hs...)
 					h := New(service.LoadBalancePolicy_LEAST_CONNECTION).PickHost(hs)
+					for i := range hs {
+						if hs[i] != before[i] {
+							// the list is the caller's (the host set's shared, sorted usable view)
+							fail("balancer-reorders-the-callers-host-list / least connection", fmt.Sprintf("n=%d conns=%v draws=%v: position %d changed", n, conns, seq, i))
+							copy(hs, before)
+							break
+						}
+					}
 					pi := in(h)
 					if pi < 0 {
 						fail("least-connection-picks-outside-the-list", fmt.Sprintf("n=%d conns=%v draws=%v", n, conns, seq))
